@@ -1,0 +1,13 @@
+//go:build verif
+
+package protoprint
+
+import "google.golang.org/protobuf/reflect/protoreflect"
+
+// Verification-only exports (build tag "verif"): scope shortening of type names.
+
+func VerifContextRefName(contextOfCall protoreflect.Descriptor, refElement protoreflect.Descriptor) (string, error) {
+	return contextRefName(contextOfCall, refElement)
+}
+
+func VerifDefaultJSONName(name string) string { return defaultJSONName(name) }
